@@ -48,7 +48,11 @@ type Parser struct {
 	// escTimeout is a timeout for interpretting an Esc keypress vs an
 	// escape sequence
 	escTimeout *time.Timer
-	mu         sync.Mutex
+	// escGen identifies the pending Escape timeout. It is incremented
+	// (with mu held) whenever the timeout becomes void: input arrived,
+	// the input ended, or the parser was closed
+	escGen int
+	mu     sync.Mutex
 
 	oscData []rune
 	apcData []rune
@@ -119,6 +123,9 @@ outer:
 		default:
 			r := p.readRune()
 			p.mu.Lock()
+			// Anything read, including the end of input, voids a
+			// pending Escape timeout
+			p.escGen += 1
 			p.state = anywhere(r, p)
 			if p.state == nil {
 				p.mu.Unlock()
@@ -130,6 +137,10 @@ outer:
 	if p.escTimeout != nil {
 		p.escTimeout.Stop()
 	}
+	// A timeout which already fired must not emit after the EOF
+	p.mu.Lock()
+	p.escGen += 1
+	p.mu.Unlock()
 	p.emit(EOF{})
 	close(p.sequences)
 	p.closed <- true
@@ -463,11 +474,18 @@ func anywhere(r rune, p *Parser) stateFn {
 			p.exit = nil
 		}
 		p.clear()
+		gen := p.escGen
 		p.escTimeout = time.AfterFunc(10*time.Millisecond, func() {
-			p.emit(C0(0x1B))
+			// Hold the lock while emitting: the read loop must not
+			// parse the next byte until the Escape has been
+			// delivered and the state reset
 			p.mu.Lock()
+			defer p.mu.Unlock()
+			if p.escGen != gen {
+				return
+			}
 			p.state = ground
-			p.mu.Unlock()
+			p.emit(C0(0x1B))
 		})
 		return escape
 	default:
